@@ -520,6 +520,9 @@ pub fn partition(rng: &mut Rng, r: &Recv, items: &[Item], pieces: usize) -> Vec<
                 gid: 0,
             });
         }
+        for (i, a) in attrs.iter_mut().enumerate() {
+            a.gid = i;
+        }
         return attrs;
     }
     let n = items.len();
